@@ -127,3 +127,44 @@ func WithTimeout(parent Context, d time.Duration) (Context, CancelFunc) {
 func WithValue(parent Context, k, v any) Context { return context.WithValue(parent, k, v) }
 
 func Cause(c Context) error { return c.Err() }
+
+// ---- cause-carrying variants and AfterFunc (go1.20/1.21) ----
+
+type CancelCauseFunc = context.CancelCauseFunc
+
+func WithCancelCause(parent Context) (Context, CancelCauseFunc) {
+	c, cancel := WithCancel(parent)
+	return c, func(error) { cancel() }
+}
+
+func WithDeadlineCause(parent Context, d time.Time, _ error) (Context, CancelFunc) {
+	return WithDeadline(parent, d)
+}
+
+func WithTimeoutCause(parent Context, d time.Duration, _ error) (Context, CancelFunc) {
+	return WithTimeout(parent, d)
+}
+
+func WithoutCancel(parent Context) Context { return context.WithoutCancel(parent) }
+
+// AfterFunc runs f on its own (controlled) goroutine once ctx is done.
+func AfterFunc(ctx Context, f func()) (stop func() bool) {
+	stopped, started := false, false
+	if ctx.Done() == nil {
+		return func() bool { return true }
+	}
+	vsched.GoDaemon("context.AfterFunc", func() {
+		vsched.Recv("ctx.Done", ctx.Done())
+		if !stopped {
+			started = true
+			f()
+		}
+	})
+	return func() bool {
+		if started || stopped {
+			return false
+		}
+		stopped = true
+		return true
+	}
+}
